@@ -109,6 +109,13 @@ let dispatch = function
     let st = List.fold_left (fun st (m, i) -> fst (send_request !reg st m i)) st0 sends in
     let (st', o) = receive structure !reg st wire in
     put_outcome o;
+    (* a request is answered through _send_response: which class it instantiates for this id *)
+    (match o with
+     | ORequest (i, _) -> (match snd (send_response st' i) with
+                           | RespRaise -> put_int 0
+                           | RespSent None -> put_int 1
+                           | RespSent (Some _) -> put_int 2)
+     | _ -> ());
     put_list put_pval st'.futs;
     put_list (fun (i, _) -> put_pval i) st'.rtypes;
     put_bool (nested_jsonrpc wire);
